@@ -8,6 +8,8 @@ def negSym : String := "-"
 def notSym : String := "!"
 def CmpOp.sym : CmpOp → String | .lt => "<" | .le => "<=" | .gt => ">" | .ge => ">=" | .eq => "==" | .ne => "!="
 
+def MinMax.name : MinMax → String | .min => "min" | .max => "max"
+
 def Expr.c : Expr → String
   | .int n => toString n
   | .bool b => if b then "true" else "false"
@@ -19,6 +21,8 @@ def Expr.c : Expr → String
   | .or a b => s!"({a.c} || {b.c})"
   | .not a => s!"({notSym}{a.c})"
   | .ite c a b => s!"({c.c} ? {a.c} : {b.c})"
+  | .abs a => s!"abs({a.c})"
+  | .mm k a b => s!"{k.name}({a.c}, {b.c})"
 
 def Ty.c : Ty → String | .int => "int" | .bool => "bool"
 
